@@ -187,6 +187,12 @@ def signature(err, text, flags, model, fam):
             and re.search(r"T\d+<[^<>]*\b[AB]\b[^<>]*,[^<>]*\b(?:int|char|short|long|bool|float|double|unsigned long|long long|C\d+)\b[^<>]*>|"
                           r"T\d+<[^<>]*\b(?:int|char|short|long|bool|float|double|unsigned long|long long|C\d+)\b[^<>]*,[^<>]*\b[AB]\b[^<>]*>", text):
         return "c01.template-mixed-dependent-instantiation"
+    if fam == "cxx-classes" and set(codes) <= {"E0428", "E0592", "E0201"} and codes:
+        dup = set(re.findall(r"the name `(\w+)` is defined multiple times", err)) | set(re.findall(r"duplicate definitions with name `(\w+)`", err))
+        # overload N of method `f` is named `fN`: it collides with a method that is really called `fN` (destruct / destruct1, new1 / new11, ...)
+        digit_methods = set(re.findall(r"\b(\w*\D)(\d+)\(", text))
+        if dup and all(re.search(r"\d$", d_) for d_ in dup) and digit_methods:
+            return "c01.cxx-overload-suffix-collision"
     if fam == "cxx-classes" and "E0124" in codes and set(codes) <= {"E0124", "E0080"}:
         dup = set(re.findall(r"field `(\w+)` is already declared", err))
         if dup and dup <= {"vtable_", "_base", "_base_1"} and all(re.search(r"\b%s;" % re.escape(x), text) for x in dup):
